@@ -17,8 +17,10 @@ def run(tier, seed):
                 ('MC_ReifyImpl', 'MC_ReifyImpl_B0.cfg', 'MC_ReifyImpl_B.cfg',
                  'the same model, two constructor calls in a row with unit clauses and propagation in between (cache hits after the values changed, the literal returned as an argument of the next call)', None),
                 ('MC_ReifyImpl', 'MC_ReifyImpl_C2.cfg', 'MC_ReifyImpl_C.cfg',
-                 'the same model, four to six arguments: the product encoding of at-most-one with its row / column variables, exactly-one on top of it, repeated and complementary arguments among them', None)],
-        reifyimpl=(['ReifyGen_A1.cfg', 'ReifyGen_B0.cfg', 'ReifyGen_C2.cfg'], ['ReifyGen_A.cfg', 'ReifyGen_B1.cfg', 'ReifyGen_C.cfg', 'ReifyGen_C2.cfg']),
+                 'the same model, four to six arguments: the product encoding of at-most-one with its row / column variables, exactly-one on top of it, repeated and complementary arguments among them', None),
+                ('MC_ReifyImpl', 'MC_ReifyImpl_D.cfg', 'MC_ReifyImpl_D.cfg',
+                 'the same model, a cardinality constraint and then the same one with one more argument that is repeated, complementary or decided at root level by a unit clause in between: the cache entry of the smaller constraint must not answer the larger request', None)],
+        reifyimpl=(['ReifyGen_A1.cfg', 'ReifyGen_B0.cfg', 'ReifyGen_C2.cfg', 'ReifyGen_D.cfg'], ['ReifyGen_A.cfg', 'ReifyGen_B1.cfg', 'ReifyGen_C.cfg', 'ReifyGen_C2.cfg', 'ReifyGen_D.cfg']),
         cache=(8, 40),
         assumptions=['at most 11 propositional variables per execution (model enumeration)',
                      'for at-most-one / exactly-one every occurrence of a repeated argument counts (the truth table of the RIDDLE operator)'])
